@@ -14,7 +14,7 @@ WHOLE_ROW_KNOWN = {'EnterxLeavexT1': 'F041'}  # rows whose open known-finding re
 # case splits: a row whose exploration is a long pole is run as several units, one per value of the named fields
 # (the union of the cases is the whole row -- nothing is dropped, the cases run in parallel)
 SPLIT = {
-    'StrRegisterA1': [('type', 4), ('U', 2)], 'LdrRegisterArmA1': [('type', 4), ('U', 2)],
+    'StrRegisterA1': [('type', 4), ('U', 2)], 'LdrRegisterArmA1': [('type', 4), ('U', 2), ('P', 2)],
     'StrbRegisterA1': [('type', 4)], 'LdrbRegisterA1': [('type', 4)],
     'LdrImmediateThumbT4': [('U', 2), ('W', 2)], 'LdrdImmediateT1': [('U', 2), ('W', 2)],
     'StrdImmediateT1': [('U', 2), ('W', 2)],
@@ -120,6 +120,9 @@ def family_units(families, archs, tables, only=None, sec=True, virt=False, tag='
                 kw['fix'] = fx
                 if 'U' in have and 'U' not in fx and name not in SPLIT:
                     extra_split = [('U', 2)]
+            if kw.get('reg_values') == 'distinct' and name.startswith('Usad') and 'Rn' in {n for k, n, w, v in E.items
+                                                                                           if k == 'f'}:
+                extra_split = [('Rn', 16)]  # operand rows of the sum-of-absolute-differences: one unit per Rn
             cases = split_cases(name, kw)
             for field, n_ in extra_split:
                 cases = [('%s/%s=%d' % (suf, field, v), dict(k, fix=dict(k.get('fix') or {}, **{field: v})))
